@@ -97,6 +97,8 @@ def sym_unpack_buffer(P, ex):
     n = P['n']
     with mbv.env(forge=True):
         data = ex.bytes('data', n)
+        if P.get('tail'):
+            data = bvx.SymBytes(list(data.items) + list(P['tail']))
         buf = bvx.SymBytes([5] + list(data.items))
         r = mich.run_instr(mich.I({'prim': 'UNPACK', 'args': [ty.as_micheline_expr()]}), [mich.mk('bytes', buf)])[0]
         if r.item is None:
@@ -166,7 +168,7 @@ def conc_unpack_buffer(P, w):
     from ref import michbin
 
     ty = mich.T(P['type'])
-    data = bytes(w['data'])
+    data = bytes(w['data']) + bytes(P.get('tail', []))
     r = mich.run_instr(mich.I({'prim': 'UNPACK', 'args': [ty.as_micheline_expr()]}), [mich.mk('bytes', b'\x05' + data)])[0]
     if r.item is None:
         return {'ok': True, 'observed': 'None'}
@@ -273,6 +275,10 @@ def obligations(tier):
                 continue
             obs.append(Ob(f'unpack-buffer/{s}/n={n}', 'bvx', sym_unpack_buffer, conc_unpack_buffer, {'type': s, 'n': n}, timeout=t if n < 4 else 3 * t, opts={'W': 64},
                           bounds=f'UNPACK {s} of 0x05 followed by every byte string of length {n}', targets=TARGETS))
+    for s, lname, tail in (('pair int int', 'args=[1,2]', [0, 0, 0, 4, 0, 1, 0, 2, 0, 0, 0, 0]), ('unit', 'no-args', [0, 0, 0, 0, 0, 0, 0, 0]),
+                           ('option int', 'args=[1]', [0, 0, 0, 2, 0, 1, 0, 0, 0, 0])):
+        obs.append(Ob(f'unpack-buffer/{s}/any-tag+generic-layout/{lname}', 'bvx', sym_unpack_buffer, conc_unpack_buffer, {'type': s, 'n': 2, 'tail': tail}, timeout=t, opts={'W': 64},
+                      bounds=f'UNPACK {s} of 0x05, a symbolic node tag, a symbolic primitive byte and the fixed generic-primitive layout', targets=TARGETS))
     # 05 02 LLLL ...: the low byte of the outer length prefix is at offset 5; for a nested list the first inner prefix low byte is at offset 10
     for s, off in (('list nat', 5), ('list (list nat)', 5), ('list (list nat)', 10), ('pair nat nat nat nat', 5), ('list (pair nat string)', 5), ('map nat nat', 5)):
         obs.append(Ob(f'unpack-length/{s}@{off}', 'bvx', sym_unpack_length, conc_unpack_length, {'type': s, 'offset': off, 'maxlen': 1, 'maxcoll': 2}, timeout=t, opts={'W': 64},
